@@ -40,6 +40,8 @@ type stubSession struct {
 	recordPoll bool
 	// fail(name) reports whether the backend call should fail with NO.
 	fail func(name string) bool
+	// appendRefuse(mailbox): Append fails at once, WITHOUT reading the message literal
+	appendRefuse func(mailbox string) bool
 	// hooks
 	onSearch    func(kind imapserver.NumKind, c *imap.SearchCriteria, o *imap.SearchOptions) (*imap.SearchData, error)
 	onPoll      func(w *imapserver.UpdateWriter, allowExpunge bool) error
@@ -183,6 +185,10 @@ func (s *stubSession) Append(mailbox string, r imap.LiteralReader, options *imap
 			return nil, err
 		}
 		return s.onAppend(mailbox, r, options)
+	}
+	if s.appendRefuse != nil && s.appendRefuse(mailbox) {
+		s.rec("Append", options, map[string]interface{}{"mailbox": mailbox, "size": r.Size(), "payload": ""})
+		return nil, &imap.Error{Type: imap.StatusResponseTypeNo, Code: imap.ResponseCodeTryCreate, Text: "no such mailbox"}
 	}
 	b, _ := io.ReadAll(r)
 	if err := s.rec("Append", options, map[string]interface{}{"mailbox": mailbox, "size": r.Size(), "payload": string(b)}); err != nil {
